@@ -486,11 +486,19 @@ Fixpoint remove_parens_test (x : texpr) : texpr * bool :=
 (* removeNegateTest *)
 Definition remove_negate_test (x : texpr) : texpr * bool :=
   match x with
-  | TUn 0 (TUn 1 y) => (TUn 2 y, true)
-  | TUn 0 (TUn 2 y) => (TUn 1 y, true)
-  | TUn 0 (TUn 0 y) => (y, true)
-  | TUn 0 (TBin 1 a b) => (TBin 2 a b, true)
-  | TUn 0 (TBin 2 a b) => (TBin 1 a b, true)
+  | TUn op (TUn op2 y) =>
+      if op =? T_NOT then
+        if op2 =? T_EMP then (TUn T_NEMP y, true)
+        else if op2 =? T_NEMP then (TUn T_EMP y, true)
+        else if op2 =? T_NOT then (y, true)
+        else (x, false)
+      else (x, false)
+  | TUn op (TBin op2 a b) =>
+      if op =? T_NOT then
+        if op2 =? T_MATCH then (TBin T_NOMATCH a b, true)
+        else if op2 =? T_NOMATCH then (TBin T_MATCH a b, true)
+        else (x, false)
+      else (x, false)
   | _ => (x, false)
   end.
 
@@ -667,8 +675,9 @@ Definition simplify_cmd (c : cmd) : option (cmd * bool) := walk_cmd (csize c) c.
 Section CmdSem.
   Variable State : Type.
   Variable run_other : N -> State -> State * str * Z.
-  (* negation, redirections, ... of a non-plain statement, applied to the command's run *)
-  Variable modify : (State -> State * str * Z) -> State -> State * str * Z.
+  (* negation, redirections, ... of a non-plain statement: a function of the state before
+     and of what the command's run produced *)
+  Variable modify : State -> State * str * Z -> State * str * Z.
   Variable set_status : State -> Z -> State.
 
   Fixpoint sem_cmd (c : cmd) (s : State) : State * str * Z :=
@@ -680,7 +689,7 @@ Section CmdSem.
              match l with
              | [] => (s0, [], 0%Z)
              | St p c' :: r =>
-                 let '(s1, o1, z1) := (if p then sem_cmd c' else modify (sem_cmd c')) s0 in
+                 let '(s1, o1, z1) := if p then sem_cmd c' s0 else modify s0 (sem_cmd c' s0) in
                  match r with
                  | [] => (s1, o1, z1)
                  | _ => let '(s2, o2, z2) := go r (set_status s1 z1) in (s2, o1 ++ o2, z2)
